@@ -222,6 +222,32 @@ def check(env, rep, tier):
             rep.ob("C06.5", "%s|%s" % (self_s, name), want in calls,
                    "%s no longer converts through %s (calls: %s)" % (b["path"], want, sorted(c for c in calls if c)),
                    {"file": b["span"]["f"], "line": b["span"]["l"], "fn": b["path"]})
+        # ---- C06.5c text options encode to exactly the string's bytes: the vector returned is the string's own buffer
+        #      (same object, same length) on every path - not a prefix, a filtered or a rebuilt text
+        eb = find_impl_fn(prog, "core::convert::From", "alloc::vec::Vec<u8>", "option_value::OptionValueString", "from")
+        if eb is not None:
+            I = new_interp(prog)
+            I.no_join_bodies.add(eb["id"])
+            st = State()
+            arg = I.mat(st, prog.ty(eb["locals"][1]["ty"]), "value")
+            if isinstance(arg, StructV) and arg.fields and isinstance(arg.fields[0], TopV):
+                arg = StructV([I.mat(st, arg.fields[0].ty, "value.0")])
+            orig = arg.fields[0] if isinstance(arg, StructV) and arg.fields else None
+            I, res = run(prog, eb, args=[arg], st=st, I=I)
+            okx = bool(res) and isinstance(orig, VecV)
+            for s_, rv in res:
+                same = isinstance(rv, VecV) and isinstance(orig, VecV) and rv.tag == orig.tag
+                if isinstance(rv, VecV) and isinstance(orig, VecV) and isinstance(rv.tag, tuple) and rv.tag and rv.tag[0] in ("copy", "slice") and len(rv.tag) >= 4:
+                    # a copy of the whole buffer (`as_bytes().to_vec()`, `Vec::from(s.as_bytes())`)
+                    bs = rv.tag[1]
+                    off = rv.tag[2]
+                    same = isinstance(bs, tuple) and bs and bs[0] == "vec" and len(bs) >= 4 and bs[3] == orig.tag \
+                        and (off == 0 or (isinstance(off, Aff) and s_.entails_eq(off, Aff.const(0))))
+                if not (same and s_.entails_eq(rv.len, orig.len)):
+                    okx = False
+            rep.ob("C06.5", "string-encode-exact", okx,
+                   "the text option encoder does not return exactly the bytes of the string it is given on every path (shortened, filtered or rebuilt text)",
+                   {"file": eb["span"]["f"], "line": eb["span"]["l"], "fn": eb["path"]}, sample={"rule": "C06.5", "paths": len(res)})
         # ---- C06.5b text options: Ok exactly when String::from_utf8 says so, carrying that very String
         sb = find_impl_fn(prog, "core::convert::TryFrom", "option_value::OptionValueString", "alloc::vec::Vec<u8>", "try_from")
         if sb is not None:
@@ -314,6 +340,7 @@ def check(env, rep, tier):
             rep.ob("C06.6", entry, ok, "%s does not reach the raw option state (%s or the option map) with its own option number" % (entry, raw),
                    {"file": b["span"]["f"], "line": b["span"]["l"], "fn": entry})
 
+        check_elementwise(prog, rep)
         # ---- C06.7 the numeric convenience accessors hand the number over unchanged
         b = find_body(prog, "packet::Packet::set_observe_value")
         g = find_body(prog, "packet::Packet::get_observe_value")
@@ -370,3 +397,79 @@ def check(env, rep, tier):
             rep.ob("C06.7", "get_observe_value", ok,
                    "get_observe_value does not return the decoded number unchanged",
                    {"file": g["span"]["f"], "line": g["span"]["l"], "fn": g["path"]})
+
+
+
+ELEMENTWISE_OK = {"map", "collect", "cloned", "copied", "by_ref", "into_iter", "iter", "next", "for_each", "size_hint"}
+
+
+def check_elementwise(prog, rep):
+    """C06.10: the typed list accessors convert 'element by element and in order'.  (a) The iterator pipeline of
+    get_options_as / set_options_as (their closures included) uses only adapters that keep every element and the
+    order (map, cloned, collect ...): map_while, take_while, filter, skip, take, rev, step_by ... drop or reorder.
+    (b) The per-element step - the closure (or loop body) handed one stored value - converts exactly that value on
+    every path and hands the conversion's result back unchanged."""
+    for entry, conv_names, what in (("packet::Packet::get_options_as", ("try_from", "try_into"), "decode"),
+                                    ("packet::Packet::set_options_as", ("into", "from"), "encode")):
+        b = find_body(prog, entry)
+        if b is None:
+            rep.missing("C06.10", entry)
+            continue
+        site = {"file": b["span"]["f"], "line": b["span"]["l"], "fn": entry}
+        fam = [x for x in prog.bodies.values() if not x.get("promoted") and (x["id"] == b["id"] or x["path"].startswith(b["path"] + "::{closure"))]
+        bad_adapters, loops = [], 0
+        for x in fam:
+            for bb in x["blocks"]:
+                t = bb["term"]
+                if t["k"] != "call" or bb.get("cleanup"):
+                    continue
+                pth = (t.get("resolved") or t.get("callee") or {}).get("path", "") or ""
+                nm = pth.rsplit("::", 1)[-1]
+                if ("core::iter::traits::iterator::Iterator::" in pth or "core::iter::traits::double_ended::DoubleEndedIterator::" in pth
+                        or pth.startswith("core::iter::adapters::")) and nm not in ELEMENTWISE_OK:
+                    bad_adapters.append(nm)
+        rep.ob("C06.10", entry + "|element-wise-pipeline", not bad_adapters,
+               "%s passes the stored values through %s: an adapter that can drop, stop at or reorder elements, so the typed list is not the "
+               "element-by-element %s of the stored one" % (entry, sorted(set(bad_adapters)), what), site)
+        # (b) the per-element closures: one parameter besides the closure itself, and they call the conversion
+        steps = []
+        for x in fam:
+            if x["id"] == b["id"] or x["arg_count"] != 2:
+                continue
+            calls = [(bb["term"].get("resolved") or bb["term"].get("callee") or {}).get("path", "") or "" for bb in x["blocks"]
+                     if bb["term"]["k"] == "call" and not bb.get("cleanup")]
+            if any(c.rsplit("::", 1)[-1] in conv_names and "convert" in c for c in calls):
+                steps.append(x)
+        ok_steps, n_paths = True, 0
+        for x in steps:
+            I = new_interp(prog)
+            I.no_join_bodies.add(x["id"])
+            st = State()
+            gargs = tuple(("adt", "option_value::OptionValueU16", (), "struct") if g == "T" else ("param", g) for g in x.get("generics", []))
+            subst = prog.body_subst(x, gargs)
+            args = [I.mat(st, prog.ty(x["locals"][i + 1]["ty"], subst), "a%d" % i) for i in range(x["arg_count"])]
+            item = args[1]
+            made = []
+
+            def hook(I_, s_, call, cbody, made=made, item=item):
+                if call.name in conv_names and "convert" in call.path and call.ctx.depth == 0:
+                    a = call.args[0] if call.args else None
+                    src_ok = a == item
+                    if isinstance(item, RefV) and isinstance(a, VecV):
+                        # a clone of the stored value
+                        orig = I_.read(s_, item.place)
+                        src_ok = isinstance(orig, VecV) and s_.entails_eq(a.len, orig.len) and (a.tag == orig.tag or (isinstance(a.tag, tuple) and a.tag and a.tag[0] in ("copy", "clone", "slice")))
+                    s_.ghost["converted"] = s_.ghost.get("converted", 0) + 1
+                    if not src_ok:
+                        s_.ghost[("inj", "converted-other")] = True
+            I.call_hooks.append(hook)
+            I.max_depth = 1
+            I, res = run(prog, x, args=args, st=st, I=I, gargs=gargs)
+            for s_, rv in res:
+                n_paths += 1
+                if s_.ghost.get("converted") != 1 or s_.ghost.get(("inj", "converted-other")):
+                    ok_steps = False
+        rep.ob("C06.10", entry + "|per-element-step", bool(steps) and ok_steps and n_paths >= 1,
+               "%s: %s" % (entry, "no per-element conversion step found (closure calling %s): cannot establish" % "/".join(conv_names) if not steps else
+                           "the per-element step does not %s exactly the value it is handed, once, on every path (paths: %d)" % (what, n_paths)), site,
+               sample={"rule": "C06.10", "entry": entry, "paths": n_paths})
